@@ -53,11 +53,15 @@ typedef struct tmr {
 	struct ttrial *t;
 	vf_rng_t rng;
 	int qi;
+	pthread_mutex_t cfg;     /* two reconfigurations of one timer (resumer thread, item on the target queue) must not interleave in the
+	                          * harness: the recorded settings are those of the last dispatch_source_set_timer call */
+	const char *cfg_path;
 } tmr_t;
 
 typedef struct ttrial {
 	tmr_t *tm; int n;
 	dispatch_queue_t qs[5];   /* serial, concurrent, global, workloop, serial over (serial | workloop) */
+	_Atomic uint64_t resumes_pending;   /* suspends issued from handlers whose balancing resume (a dispatch_after block) has not returned yet */
 	_Atomic uint64_t must_fire_done, cancel_done, after_done, fires_total, rearms, rearms_suspended, rearms_from_target, clock_switches, early;
 	uint64_t salt;
 	vf_profile_t prof;
@@ -66,7 +70,15 @@ typedef struct ttrial {
 static clockid_t clk_id(int k) { return k == VF_CLK_WALL ? CLOCK_REALTIME : k == VF_CLK_MONO ? CLOCK_BOOTTIME : CLOCK_MONOTONIC; }
 
 /* program (or re-program) a timer; returns decoded start */
-static void program_timer(tmr_t *m, vf_rng_t *r, int allow_never)
+static void program_timer_locked(tmr_t *m, vf_rng_t *r, int allow_never);
+static void program_timer(tmr_t *m, vf_rng_t *r, int allow_never, const char *path)
+{
+	pthread_mutex_lock(&m->cfg);
+	m->cfg_path = path;
+	program_timer_locked(m, r, allow_never);
+	pthread_mutex_unlock(&m->cfg);
+}
+static void program_timer_locked(tmr_t *m, vf_rng_t *r, int allow_never)
 {
 	/* replacing the settings may also move the timer to another clock (a plain TIMER source allows it):
 	 * the timer then changes heaps inside the library */
@@ -120,8 +132,8 @@ static void timer_handler(void *ctx)
 			atomic_fetch_add(&t->early, 1);
 			char key[96];
 			snprintf(key, sizeof(key), "C11:timer-fired-early:%s%s", vf_clk_names[m->clk], m->gen > 1 ? ":after-set_timer" : "");
-			vf_violation(key, "timer handler invoked %llu ns before its start time on the %s clock (start %llu, now %llu, interval %llu, settings generation %d, %s)",
-					(unsigned long long)(m->start - now), vf_clk_names[m->clk], (unsigned long long)m->start, (unsigned long long)now, (unsigned long long)m->interval, m->gen, t->prof.desc);
+			vf_violation(key, "timer handler invoked %llu ns before its start time on the %s clock (start %llu, now %llu, interval %llu, settings generation %d set %s, %s)",
+					(unsigned long long)(m->start - now), vf_clk_names[m->clk], (unsigned long long)m->start, (unsigned long long)now, (unsigned long long)m->interval, m->gen, m->cfg_path ? m->cfg_path : "?", t->prof.desc);
 		}
 		if (data == 0) vf_violation("C11:timer-handler-with-zero-data", "timer handler invoked with dispatch_source_get_data() == 0");
 		m->total += data;
@@ -130,6 +142,7 @@ static void timer_handler(void *ctx)
 			vf_violation(m->interval ? "C11:timer-count-exceeds-interval-boundaries" : "C11:one-shot-timer-count-exceeds-one",
 					"cumulative dispatch_source_get_data %llu exceeds the %llu interval boundaries passed since the start (now-start %llu ns, interval %llu ns, %s clock, generation %d)",
 					(unsigned long long)m->total, (unsigned long long)bound, (unsigned long long)(now - m->start), (unsigned long long)m->interval, vf_clk_names[m->clk], m->gen);
+			(void)m->cfg_path;
 		}
 	}
 	if (f == 0) {
@@ -141,12 +154,13 @@ static void timer_handler(void *ctx)
 	if (m->rearm_left > 0 && c < 25 && !atomic_load(&m->cancelled)) {
 		m->rearm_left--;
 		atomic_fetch_add_explicit(&t->rearms, 1, memory_order_relaxed);
-		program_timer(m, &m->rng, 0);
+		program_timer(m, &m->rng, 0, "from the handler");
 	} else if (c < 30 && m->interval && !atomic_load(&m->cancelled)) {
 		/* suspend from the handler; resume later from a global queue. Half of the time the settings are
 		 * replaced while the source is suspended (no handler invocation can start before the resume, so
 		 * everything that runs afterwards has to follow the new settings only — even if the old settings
 		 * expired in the meantime) */
+		atomic_fetch_add_explicit(&t->resumes_pending, 1, memory_order_relaxed);
 		dispatch_suspend(m->ds);
 		dispatch_source_t ds = m->ds;
 		int reprogram = m->rearm_left > 0 && vf_rnd_n(&m->rng, 2);
@@ -158,9 +172,10 @@ static void timer_handler(void *ctx)
 				vf_rng_t r2; vf_rng_seed(&r2, rseed, 1);
 				/* let the old settings expire while suspended now and then */
 				if (vf_rnd_n(&r2, 2)) { struct timespec ts = { 0, (long)vf_rnd_range(&r2, 100000, 2000000) }; nanosleep(&ts, NULL); }
-				program_timer(m, &r2, 0);
+				program_timer(m, &r2, 0, "while suspended, by the resuming thread");
 			}
 			dispatch_resume(ds);
+			atomic_fetch_sub_explicit(&t->resumes_pending, 1, memory_order_release);
 		});
 	} else if (c < 36 && m->interval && f > 2) {
 		atomic_store(&m->cancelled, 1);
@@ -177,7 +192,7 @@ static void rearm_from_target_item(void *ctx)
 	tmr_t *m = ctx;
 	if (atomic_load(&m->cancelled) || atomic_load(&m->cancel_ran) || m->never_fire) return;
 	atomic_fetch_add_explicit(&m->t->rearms_from_target, 1, memory_order_relaxed);
-	program_timer(m, &m->rng, 0);
+	program_timer(m, &m->rng, 0, "from an item on the serialising target queue");
 }
 
 static void timer_cancel_handler(void *ctx)
@@ -240,7 +255,7 @@ static void run_trial(int idx)
 		}
 		m->rearm_left = (int)vf_rnd_n(&r, 4);
 		m->must_fire = 1;
-		program_timer(m, &r, 1);
+		program_timer(m, &r, 1, "initial");
 		m->gen = 1;
 		if (m->never_fire) m->must_fire = 0;
 		if (m->must_fire) must++;
@@ -296,6 +311,11 @@ static void run_trial(int idx)
 	vf_watch_begin("timer:cancel-handlers", 3100);
 	for (int i = 0; i < t->n; i++) { atomic_store(&t->tm[i].cancelled, 1); dispatch_source_cancel(t->tm[i].ds); }
 	while (atomic_load_explicit(&t->cancel_done, memory_order_acquire) < (uint64_t)t->n) { struct timespec ts = { 0, 500000 }; nanosleep(&ts, NULL); }
+	vf_watch_end();
+	/* a source must not be released while a suspension is outstanding (API rule): the library may run the cancel
+	 * handler of a source that its own last handler invocation suspended, so wait for the balancing resumes too */
+	vf_watch_begin("timer:balancing-resumes", 3100);
+	while (atomic_load_explicit(&t->resumes_pending, memory_order_acquire)) { struct timespec ts = { 0, 200000 }; nanosleep(&ts, NULL); }
 	vf_watch_end();
 	vf_perturb_off();
 	uint64_t nf = 0;
